@@ -394,9 +394,11 @@ class J1939_22:
                 # deadline reached
                 frame_format, session_num, src_address, dst_address = self._buffer_unhash_mpg(bufid)
 
-                self.__send_multi_pg(frame_format, buf['cpg'], src_address, dst_address)
-
+                # take the buffer out before it is sent: a group submitted while the frame
+                # is on its way to the bus must start a new buffer instead of joining this one
                 del self._multi_pg_snd_buffer[bufid]
+
+                self.__send_multi_pg(frame_format, buf['cpg'], src_address, dst_address)
 
 
         # check send buffers
